@@ -97,7 +97,9 @@ func streamChan(o *Out, r *rand.Rand, n int, thorough bool) {
 					continue // would block
 				}
 				v := int64(r.Intn(100))
-				fmt.Fprintf(&src, "try {\nc <- %d\nprobe(\"done\")\n} catch e {\nprobe(e)\n}\n", v)
+				// the arrow with and without blanks around it: `c<-1` is a send like `c <- 1`
+				arrow := []string{" <- ", "<-", "<- ", " <-"}[r.Intn(4)]
+				fmt.Fprintf(&src, "try {\nc%s%d\nprobe(\"done\")\n} catch e {\nprobe(e)\n}\n", arrow, v)
 				fmt.Fprintf(&req, " (send %d)", v)
 				if closed {
 					want = append(want, "err:send_on_closed_channel")
@@ -109,7 +111,7 @@ func streamChan(o *Out, r *rand.Rand, n int, thorough bool) {
 				if len(buf) == 0 && !closed {
 					continue
 				}
-				src.WriteString("probe(<-c)\n")
+				src.WriteString([]string{"probe(<-c)\n", "probe(<- c)\n", "probe( <-c )\n"}[r.Intn(3)])
 				req.WriteString(" (recv)")
 				if len(buf) > 0 {
 					want = append(want, fmt.Sprint(buf[0]))
@@ -429,6 +431,12 @@ func streamChan(o *Out, r *rand.Rand, n int, thorough bool) {
 		// the variable of a for-in over a channel is the loop's own: a variable of that name outside keeps its value
 		{"for-in-variable-is-local", "v = 7\nc = make(chan int64, 2)\nc <- 1\nc <- 2\nclose(c)\ns = 0\nfor v in c {\ns += v\n}\n[v, s]", "[7,3]"},
 		{"for-in-variable-is-local-in-stages", "v = -1\nok = false\nc1 = make(chan int64)\nc2 = make(chan int64, 2)\ngo func() {\nfor i = 0; i < 200; i++ {\nc1 <- i\n}\nclose(c1)\n}()\ngo func() {\nfor v in c1 {\nc2 <- v + 1000\n}\nclose(c2)\n}()\nbad = 0\nn = 0\nfor {\nv, ok = <- c2\nif !ok {\nbreak\n}\nif v != 1000 + n {\nbad++\n}\nn++\n}\n[n, bad]", "[200,0]"},
+		// every made value of a struct type with channel fields has channels of its own (what goes to one inbox reaches that
+		// worker only; closing one does not close the other)
+		{"struct-channels-are-per-value", "a = make(struct { In chan int64 })\nb = make(struct { In chan int64 })\nclose(a.In)\ngo func() { b.In <- 5 }()\nv, ok = <-b.In\n[v, ok]", "[5,true]"},
+		{"struct-channels-two-workers", "make(type Worker, make(struct { In chan int64 }))\nw1 = make(Worker)\nw2 = make(Worker)\nout = make(chan int64, 16)\nfunc run(w, k) {\nfor v in w.In {\nout <- v * k\n}\nout <- 0 - k\n}\ngo run(w1, 1)\ngo run(w2, 100)\nw1.In <- 1\nw1.In <- 2\nclose(w1.In)\nw2.In <- 4\nclose(w2.In)\ns = 0\nfor i = 0; i < 5; i++ {\ns += <-out\n}\ns", "302"},
+		{"struct-channels-nested", "make(type Box, make(struct { In chan int64 }))\nmake(type Pair, make(struct { A Box, B Box }))\np = make(Pair)\nq = make(Pair)\nclose(p.A.In)\nclose(p.B.In)\nclose(q.A.In)\nclose(q.B.In)\n\"all four closed once\"", "all four closed once"},
+		{"struct-channels-in-a-slice", "ws = make([]struct { In chan int64 }, 2)\nws[0] = make(struct { In chan int64 })\nws[1] = make(struct { In chan int64 })\nclose(ws[0].In)\ngo func() { ws[1].In <- 9 }()\n<-ws[1].In", "9"},
 		{"unbuffered-handoff", "c = make(chan int64)\nd = make(chan int64)\ngo func() {\nfor x in c {\nd <- x + 1\n}\nclose(d)\n}()\ngo func() {\nc <- 1\nc <- 2\nclose(c)\n}()\nr = []\nfor y in d {\nr += y\n}\nr", "[2,3]"},
 	}
 	for _, t := range templates {
